@@ -200,8 +200,10 @@ theorem logEinsumDot_ninf_operand (ys : List Cls) (hy : ys.all logDom = true) :
 
 /-! ## the accumulation order: the code's, and the suggested one -/
 
-/-- the suggested repair of KF-logeinsum-shift-overflow: `sum([result] + shifts)` — start from the
-    log term (shift sum may overflow: plain `addC`). -/
+/-- the repair of KF-logeinsum-shift-overflow, `sum([result] + shifts)` — start from the log term
+    (shift sum may overflow: plain `addC`).  /repo adopted this order (fix commit after 86a8617), so
+    THIS is the composition the code now performs; `logEinsumDot true` is the pre-fix order, kept
+    for the witness theorem. -/
 def logEinsumDotFixed (xs ys : List Cls) : CSet :=
   let sx := norm ((amaxC xs).map clipLoC)
   let sy := norm ((amaxC ys).map clipLoC)
